@@ -123,6 +123,11 @@ pub(crate) struct ValveProtocol {
 
 static PACKET_SIZE: usize = 6144;
 
+/// How many challenges in a row a request may be answered with. A server that
+/// answers every request with a challenge would otherwise keep the query going
+/// forever: every receive succeeds, so no timeout ever fires.
+const MAX_CHALLENGE_ROUNDS: usize = 10;
+
 impl ValveProtocol {
     pub fn new(address: &SocketAddr, timeout_settings: Option<TimeoutSettings>) -> GDResult<Self> {
         let socket = UdpSocket::new(address, &timeout_settings)?;
@@ -207,8 +212,14 @@ impl ValveProtocol {
         self.socket.send(&request_initial_packet)?;
 
         let mut packet = self.receive(engine, protocol, PACKET_SIZE)?;
+        let mut challenge_rounds = 0;
         while packet.kind == 0x41 {
             // 'A'
+            challenge_rounds += 1;
+            if challenge_rounds > MAX_CHALLENGE_ROUNDS {
+                return Err(PacketBad.context("The server keeps answering with a challenge"));
+            }
+
             let challenge = packet.payload;
 
             const INFO: u8 = Request::Info as u8;
